@@ -64,8 +64,10 @@ func (t *messageTransformSubscriberDecorator) Subscribe(ctx context.Context, top
 			case out <- msg:
 			case <-ctx.Done():
 				// the subscription was cancelled and nobody reads: give the message up (it stays unsettled)
+				verifhook.At("decorator.pump.dropped_ctx", msg.UUID)
 				continue
 			case <-t.closing:
+				verifhook.At("decorator.pump.dropped_closing", msg.UUID)
 				continue
 			}
 			verifhook.At("decorator.pump.sent", msg.UUID)
@@ -84,6 +86,7 @@ func (t *messageTransformSubscriberDecorator) Close() error {
 	err := t.sub.Close()
 	verifhook.At("decorator.close.inner_closed")
 
+	verifhook.At("decorator.close.signalled")
 	t.closingOnce.Do(func() { close(t.closing) })
 	t.subscribeWg.Wait()
 	verifhook.At("decorator.close.waited")
